@@ -200,13 +200,26 @@ def einsum_obj(spec, *ops):
 
 
 def dft2(a):
-    """definitional 2-D DFT for N in {1, 2, 4} (twiddle factors exactly 1, -1, i, -i)"""
+    """definitional 2-D DFT for N in {1, 2, 4} (twiddle factors exactly 1, -1, i, -i) and N = 3 (twiddle factors -1/2 -+ i sqrt(3)/2
+    with sqrt(3) an exact algebraic atom of the engine)"""
     n0, n1 = a.shape
     for n in (n0, n1):
-        if n not in (1, 2, 4):
+        if n not in (1, 2, 3, 4):
             raise PathEnd('unsupported', f'fft2 of size {n}')
+    import z3
+    from . import sv as _svm
+    half = SV(t=z3.RealVal('1/2'))
+    s3h = None
 
     def tw(k, n):
+        nonlocal s3h
+        if n == 3:
+            k = k % 3
+            if k == 0:
+                return SC(1.0, 0.0)
+            if s3h is None:
+                s3h = SV(t=z3.RealVal(3)).sqrt() * half          # sqrt(3)/2
+            return SC(-half, -s3h) if k == 1 else SC(-half, s3h)
         k = (k * (4 // n)) % 4
         return [SC(1.0, 0.0), SC(0.0, -1.0), SC(-1.0, 0.0), SC(0.0, 1.0)][k]
     out = np.empty((n0, n1), dtype=object)
